@@ -30,14 +30,18 @@ RULE = (
     "numpy selection over mesh.vertices' current positions: after the first queries, 0-3 rounds follow in which 1-3 mesh "
     "vertices are moved on their own (move_to / translate, by 1e-3 ... 3 S) and the same finder object is queried again, "
     "also exactly at the new and at the former position of a moved vertex. Round-shape finder: expected sets come from the case's own axis / radius data "
-    "(end plane, radial distance = R for the rim, < R for the core). Merged cell: two cylinders end to end (aligned, "
+    "(end plane, radial distance = R for the rim, < R for the core). The round cell also draws micro-scale models (S = "
+    "1e-4 ... 7e-6, radii >= 2.1e-6, closest distinct sketch points 2.4 TOL apart). Merged cell: two cylinders end to end (aligned, "
     "twisted by 45 degrees or by a general angle) joined with mesh.merge_patches in both insertion orders and both "
     "master choices, so the interface holds duplicated vertices; expected = every mesh vertex within TOL of an end-face "
     "corner of the shape's own blocks (positions read from the assembled blocks). Re-orientation: a cube, tapered, jittered (<= 0.15 "
     "edge), mapped by rotation x anisotropic scaling x shear, placed 0 / 1e3 / 1e5 / 2e6 sizes from the origin (all three "
     "coordinates large), viewed from a point near the normal of a drawn face with "
     "the ceiling near the normal of a drawn lateral face; every one of the 48 numberings is re-oriented and compared "
-    "with the numbering the harness derives from R-HEX. Non-trivial: the query selects a proper non-empty subset; a "
+    "with the numbering the harness derives from R-HEX. Many-blocks cell: one ViewpointReorienter, 2-4 blocks of one size placed 3-16 sizes from the "
+    "observer in drawn directions (beside, behind, opposite each other), each turned so that its drawn front / top sides "
+    "face observer / ceiling with the margin rule re-checked in place, each in a drawn numbering, judged one by one. "
+    "Non-trivial: the query selects a proper non-empty subset; a "
     "non-identity numbering changed the block."
 )
 ASSUMPTIONS = [
@@ -121,12 +125,21 @@ def shape_spec(draw, kinds):
     return spec
 
 
+# micro-scale models: radii are 0.3-1 x S, so >= 2.1e-6; the closest pair of distinct sketch points of a disk (rim point and
+# core corner on the same diagonal, 0.115 R apart) stays >= 2.4e-7 = 2.4 TOL apart, i.e. distinct for the merge tolerance
+_MICRO = [1e-4, 3e-5, 1e-5, 7e-6]
+
+
 @st.composite
-def mesh_spec(draw, kinds, first_kinds=None, max_shapes=4, offsets=(0.0,)):
+def mesh_spec(draw, kinds, first_kinds=None, max_shapes=4, offsets=(0.0,), micro=False):
     n = draw(st.integers(1, max_shapes))
     shapes = [draw(shape_spec(first_kinds or kinds))]
     shapes += [draw(shape_spec(kinds)) for _ in range(n - 1)]
-    return {"S": draw(_size), "shapes": shapes, "offset": draw(_offset(list(offsets)))}
+    size = draw(st.one_of(_size, st.sampled_from(_MICRO))) if micro else draw(_size)
+    off = draw(_offset(list(offsets)))
+    if size < 0.05:
+        off = {"ratio": 0.0, "dir": off["dir"]}  # far-away placement and micro size are not combined
+    return {"S": size, "shapes": shapes, "offset": off}
 
 
 def build_mesh(spec):
@@ -447,6 +460,7 @@ def check_round(case, ctx: Ctx) -> None:
         ctx.label("round:" + type(shape).__name__, "round:" + q["which"], "round:end" if q["end"] else "round:start",
                   "round:n=%d" % len(want))
     ctx.nt(nt)
+    ctx.label("size<1e-4" if S < 1e-4 else ("size<0.05" if S < 0.05 else "size>=0.1"))
     ctx.label("shapes=%d" % len(spec["shapes"]), "offset/size=%g" % (spec.get("offset") or {"ratio": 0.0})["ratio"])
 
 
@@ -711,6 +725,31 @@ def expected_numbering(chosen):
     return hits[0]
 
 
+def judge_reoriented(r, p, want, dirs, chosen, tol, label, facts) -> None:
+    """r: point_array after reorient of a renumbering of p; want: p in the numbering derived from R-HEX"""
+    if r.shape != (8, 3):
+        raise Violation("reorient-shape", f"point_array has shape {r.shape}", **facts)
+    # same eight points
+    d = np.linalg.norm(r[:, None, :] - p[None, :, :], axis=2)
+    match = d.argmin(axis=1)
+    if d.min(axis=1).max() > tol or len(set(match.tolist())) != 8:
+        raise Violation("reorient-points-changed", f"{label}: result is not a renumbering of the eight points "
+                        f"(corner-to-point map {match.tolist()}, worst distance {d.min(axis=1).max()})", **facts)
+    if np.linalg.norm(r - want, axis=1).max() <= tol:
+        return
+    # diagnose in the order of the statement
+    if hex_corner_jacobians(r).min() <= 0:
+        raise Violation("reorient-not-right-handed", f"{label}: corner Jacobians {hex_corner_jacobians(r).round(3).tolist()}"
+                        f" (corner-to-point map {match.tolist()})", **facts)
+    nr = side_normals(r)
+    for view, kind in (("front", "reorient-front-not-facing-observer"), ("top", "reorient-top-not-facing-ceiling")):
+        scores = {s: float(nr[s] @ dirs[view]) for s in SIDE_NAMES}
+        if max(scores, key=lambda s: scores[s]) != view:
+            raise Violation(kind, f"{label}: alignment of the sides with the {view} direction {scores}", **facts)
+    raise Violation("reorient-numbering", f"{label}: corner-to-point map {match.tolist()}, expected "
+                    f"{list(expected_numbering(chosen))}", **facts)
+
+
 def check_reorient(case, ctx: Ctx) -> None:
     p = block_points(case["block"])
     if p is None:
@@ -736,27 +775,7 @@ def check_reorient(case, ctx: Ctx) -> None:
         except Exception as ex:  # noqa: BLE001
             raise Violation("reorient-raised", f"numbering {k} {perm}: {type(ex).__name__}: {ex}", **facts) from None
         results.append(r)
-        if r.shape != (8, 3):
-            raise Violation("reorient-shape", f"point_array has shape {r.shape}", **facts)
-        # same eight points
-        d = np.linalg.norm(r[:, None, :] - p[None, :, :], axis=2)
-        match = d.argmin(axis=1)
-        if d.min(axis=1).max() > tol or len(set(match.tolist())) != 8:
-            raise Violation("reorient-points-changed", f"numbering {k}: result is not a renumbering of the eight points "
-                            f"(corner-to-point map {match.tolist()}, worst distance {d.min(axis=1).max()})", **facts)
-        if np.linalg.norm(r - want, axis=1).max() <= tol:
-            continue
-        # diagnose in the order of the statement
-        if hex_corner_jacobians(r).min() <= 0:
-            raise Violation("reorient-not-right-handed", f"numbering {k}: corner Jacobians {hex_corner_jacobians(r).round(3).tolist()}"
-                            f" (corner-to-point map {match.tolist()})", **facts)
-        nr = side_normals(r)
-        for view, kind in (("front", "reorient-front-not-facing-observer"), ("top", "reorient-top-not-facing-ceiling")):
-            scores = {s: float(nr[s] @ dirs[view]) for s in SIDE_NAMES}
-            if max(scores, key=lambda s: scores[s]) != view:
-                raise Violation(kind, f"numbering {k}: alignment of the sides with the {view} direction {scores}", **facts)
-        raise Violation("reorient-numbering", f"numbering {k}: corner-to-point map {match.tolist()}, expected "
-                        f"{list(expected_numbering(chosen))}", **facts)
+        judge_reoriented(r, p, want, dirs, chosen, tol, f"numbering {k}", facts)
     # all 48 give the identical array (follows from the above; kept as the metamorphic statement itself)
     for k, r in enumerate(results[1:], start=1):
         if np.linalg.norm(r - results[0], axis=1).max() > tol:
@@ -768,6 +787,88 @@ def check_reorient(case, ctx: Ctx) -> None:
               "sheared" if np.abs(np.array(g["shear"])).max() > 0.1 else "unsheared",
               "identity-expected" if list(expected_numbering(chosen)) == list(range(8)) else "renumbered",
               "lean=%g" % abs(case.get("lean", 0.0)), "offset/size=%g" % (g.get("offset") or {"ratio": 0.0})["ratio"])
+
+
+# one reorienter, several blocks around the viewpoint
+
+
+@st.composite
+def many_blocks_case(draw):
+    n = draw(st.integers(2, 4))
+    S = draw(_size)
+    blocks = []
+    for _ in range(n):
+        b = draw(block_case())
+        b["block"]["S"] = S
+        b["block"]["offset"] = None
+        # where the block sits: the observer is seen from it in direction `towards`, at `distance` block sizes
+        b["towards"] = draw(_vec)
+        b["distance"] = [10.0 ** draw(st.floats(0.5, 1.2))]
+        b["numbering"] = draw(st.integers(0, 47))
+        blocks.append(b)
+    return {"S": S, "observer": draw(_vec), "ceiling_dir": draw(_vec), "ceiling_distance": 10.0 ** draw(st.floats(0.7, 1.7)),
+            "blocks": blocks}
+
+
+def place_block(b, observer, ceiling, S):
+    """The block (drawn shape, own frame) turned and moved so that its drawn front side faces the observer from the drawn
+    direction and its drawn top side faces the ceiling; -> (points, chosen sides) or None when not in general position."""
+    p0 = block_points(b["block"])
+    if p0 is None:
+        return None
+    local = viewpoint({**b, "distance": [b["distance"][0], b["distance"][0]]}, p0)
+    if local is None:
+        return None
+    d0 = view_directions(p0, local[0], local[1])
+    u = _normalised(b["towards"], [1, 0, 0])
+    centre = observer - u * b["distance"][0] * S
+    w = ceiling - centre
+    w = w / np.linalg.norm(w)
+    top = w - (w @ u) * u
+    if np.linalg.norm(top) < 0.3:
+        return None
+    top /= np.linalg.norm(top)
+    world = np.stack([u, top, np.cross(u, top)], axis=1)
+    own = np.stack([d0["front"], d0["top"], d0["left"]], axis=1)
+    turn = world @ own.T
+    p = (p0 - p0.mean(axis=0)) @ turn.T + centre
+    chosen = general_position(p, observer, ceiling)
+    if chosen is None or chosen != local[2]:
+        return None
+    return p, chosen
+
+
+def check_reorient_many(case, ctx: Ctx) -> None:
+    S = case["S"]
+    observer = S * 5 * np.array(case["observer"])
+    ceiling = observer + S * case["ceiling_distance"] * _normalised(case["ceiling_dir"], [0, 0, 1])
+    reorienter = ViewpointReorienter(observer, ceiling)
+    judged, directions = 0, []
+    for k, b in enumerate(case["blocks"]):
+        placed = place_block(b, observer, ceiling, S)
+        if placed is None:
+            ctx.label("excluded:not-general-position")
+            continue
+        p, chosen = placed
+        perm = NUMBERINGS[b["numbering"]]
+        q = p[list(perm)]
+        facts = {"block": k, "judged_before": judged, "numbering": b["numbering"], "mirrored": b["numbering"] >= 24}
+        loft = cb.Loft(cb.Face(q[:4]), cb.Face(q[4:]))
+        try:
+            reorienter.reorient(loft)
+            r = np.array(loft.point_array, dtype=float)
+        except Exception as ex:  # noqa: BLE001
+            raise Violation("reorient-raised", f"block {k} (the reorienter's call no. {judged + 1}): {type(ex).__name__}: {ex}",
+                            **facts) from None
+        tol = 1e-12 * S * 10 + 8 * np.finfo(float).eps * float(np.abs(p).max())
+        judge_reoriented(r, p, p[list(expected_numbering(chosen))], view_directions(p, observer, ceiling), chosen, tol,
+                         f"block {k} (call no. {judged + 1})", facts)
+        judged += 1
+        directions.append(_normalised(b["towards"], [1, 0, 0]))
+    spread = min((float(a @ b) for i, a in enumerate(directions) for b in directions[i + 1:]), default=1.0)
+    ctx.nt(judged >= 2 and spread < 0.7)
+    ctx.label("blocks-judged=%d" % judged, "views-differ>45deg" if spread < 0.7 else "views-similar",
+              "views-opposed" if spread < -0.5 else "views-not-opposed")
 
 
 # --------------------------------------------------------------------------------------------------
@@ -785,6 +886,10 @@ def _with_queries(mesh_strategy, query_strategy, rounds=True):
 
 
 CELLS = [
+    Cell("C18/reorient-many", many_blocks_case(), check_reorient_many, 150, 3000,
+         "ONE ViewpointReorienter applied in turn to 2-4 blocks that see the observer from different directions, each in a "
+         "drawn numbering: every block judged on its own (same points, right-handed, front to the observer, top to the "
+         "ceiling as seen from that block)"),
     Cell("C18/sphere/boxes", _with_queries(mesh_spec(("box",), offsets=(0.0, 0.0, 1e3, 1e5)), sphere_query()), check_sphere, 500, 10000,
          "find_in_sphere on 1-4 rows of boxes: returned set == brute-force selection (margin rule on the radius)"),
     Cell("C18/sphere/mixed", _with_queries(mesh_spec(_ALL, max_shapes=3, offsets=(0.0, 0.0, 1e3)), sphere_query()), check_sphere, 120, 2400,
@@ -793,7 +898,7 @@ CELLS = [
          "find_on_plane on rows of boxes: planes through 0-3 vertices, shifted across TOL, non-unit normals"),
     Cell("C18/plane/mixed", _with_queries(mesh_spec(_ALL, max_shapes=3, offsets=(0.0, 0.0, 1e3)), plane_query()), check_plane, 120, 2400,
          "find_on_plane on meshes with round shapes (end faces hold 17 coplanar vertices)"),
-    Cell("C18/round", _with_queries(mesh_spec(_ALL, first_kinds=ROUND_KINDS, max_shapes=3, offsets=(0.0, 0.0, 1e3)), _round_query, rounds=False), check_round, 160, 3200,
+    Cell("C18/round", _with_queries(mesh_spec(_ALL, first_kinds=ROUND_KINDS, max_shapes=3, offsets=(0.0, 0.0, 1e3), micro=True), _round_query, rounds=False), check_round, 160, 3200,
          "RoundSolidFinder.find_core / find_shell of both end faces of Cylinder, SemiCylinder, Frustum, Elbow, chained "
          "cylinders == vertices on the end plane inside / on the rim circle"),
     Cell("C18/round-merged", merged_case(), check_round_merged, 60, 1200,
